@@ -99,13 +99,14 @@ type AbsModel struct {
 }
 
 type absState struct {
-	fn    *ssa.Function
-	m     AbsModel
-	f     AbsFacts
-	vals  map[ssa.Value]AbsVal
-	arrs  map[*ssa.Alloc]map[int64]AbsVal
-	why   string
-	steps int
+	fn      *ssa.Function
+	m       AbsModel
+	f       AbsFacts
+	vals    map[ssa.Value]AbsVal
+	arrs    map[*ssa.Alloc]map[int64]AbsVal
+	why     string
+	steps   int
+	cellSet map[*ssa.Alloc]bool
 }
 
 // AbsEval returns the sign of fn's (single int or bool) result under facts f;
@@ -132,7 +133,7 @@ func AbsEvalMulti(fn *ssa.Function, m AbsModel, f AbsFacts) (res []AbsVal, ok bo
 	if fn == nil || len(fn.Blocks) == 0 {
 		return nil, false, "no body"
 	}
-	st := &absState{fn: fn, m: m, f: f, vals: map[ssa.Value]AbsVal{}, arrs: map[*ssa.Alloc]map[int64]AbsVal{}}
+	st := &absState{fn: fn, m: m, f: f, vals: map[ssa.Value]AbsVal{}, arrs: map[*ssa.Alloc]map[int64]AbsVal{}, cellSet: map[*ssa.Alloc]bool{}}
 	for i, p := range fn.Params {
 		st.vals[p] = AbsVal{Kind: AbsParam, Idx: i}
 	}
@@ -141,7 +142,10 @@ func AbsEvalMulti(fn *ssa.Function, m AbsModel, f AbsFacts) (res []AbsVal, ok bo
 }
 
 func (st *absState) clone() *absState {
-	c := &absState{fn: st.fn, m: st.m, f: st.f, vals: map[ssa.Value]AbsVal{}, arrs: map[*ssa.Alloc]map[int64]AbsVal{}, steps: st.steps}
+	c := &absState{fn: st.fn, m: st.m, f: st.f, vals: map[ssa.Value]AbsVal{}, arrs: map[*ssa.Alloc]map[int64]AbsVal{}, steps: st.steps, cellSet: map[*ssa.Alloc]bool{}}
+	for k := range st.cellSet {
+		c.cellSet[k] = true
+	}
 	for k, v := range st.vals {
 		c.vals[k] = v
 	}
@@ -222,6 +226,12 @@ func (st *absState) run(b, prev *ssa.BasicBlock, forks *int) (res []AbsVal, ok b
 				}
 				return out, true, ""
 			case *ssa.Store:
+				if cell, ok := x.Addr.(*ssa.Alloc); ok {
+					// a local variable kept in a cell (named result of a function with a defer)
+					st.vals[cell] = st.val(x.Val)
+					st.cellSet[cell] = true
+					continue
+				}
 				if ia, ok := x.Addr.(*ssa.IndexAddr); ok {
 					if al, ok := ia.X.(*ssa.Alloc); ok {
 						if i, ok := ConstInt(ia.Index); ok {
@@ -234,6 +244,16 @@ func (st *absState) run(b, prev *ssa.BasicBlock, forks *int) (res []AbsVal, ok b
 					}
 				}
 				// other stores do not influence the tracked values
+			case *ssa.Defer:
+				// a deferred call can change the results only through a cell it captures or is handed
+				for _, a := range x.Call.Args {
+					if _, isCell := a.(*ssa.Alloc); isCell {
+						return nil, false, fmt.Sprintf("a deferred call at %s receives a local variable", posOf(fn, in))
+					}
+				}
+				if mc, ok := x.Call.Value.(*ssa.MakeClosure); ok && len(mc.Bindings) > 0 {
+					return nil, false, fmt.Sprintf("a deferred closure at %s captures local variables", posOf(fn, in))
+				}
 			case *ssa.DebugRef, *ssa.RunDefers:
 			case ssa.Value:
 				st.vals[x] = st.eval(x)
@@ -344,6 +364,9 @@ func (st *absState) eval(v ssa.Value) AbsVal {
 		a := st.val(x.X)
 		switch x.Op {
 		case token.MUL:
+			if cell, ok := x.X.(*ssa.Alloc); ok && st.cellSet[cell] {
+				return st.vals[cell] // the value stored last on this path
+			}
 			return a // load of a projected field address
 		case token.NOT:
 			if a.Kind == AbsBool {
